@@ -605,12 +605,11 @@ class TOCSchemas:
         self, schema_ref: PluginRef, parents: Optional[List[PluginRef]]
     ):
         if parents is None:  # remove schema
-            for parent in self._parents[schema_ref]:
-                if parent in self._schemas:
-                    self._children[parent].remove(schema_ref)
-                elif all(
-                    (child not in self._schemas for child in self._children[parent])
-                ):
+            path = list(self._parents[schema_ref])
+            for parent in path:  # not a child of any of its parents anymore
+                self._children[parent].discard(schema_ref)
+            for parent in path:  # forget schemas neither used nor parent of a used one
+                if parent not in self._schemas and not self._children[parent]:
                     del self._parents[parent]
                     del self._children[parent]
         else:  # add schema
